@@ -199,6 +199,49 @@ fn read_back(lib: &tet::library::Library) -> Result<Vec<MCell>, String> {
 }
 fn roundtrip_case(src: &mut Src, ctx: &mut Ctx) -> Result<(), String> {
     let m = gen_lib(src);
+    check_roundtrip(&m, ctx)
+}
+/// A library of some dozens of cells: a tower of levels, each instantiating the level below and a leaf or two,
+/// listed bottom-up with the leaves in between (creation order), top-down, or shuffled.
+fn large_case(src: &mut Src, ctx: &mut Ctx) -> Result<(), String> {
+    let n = src.usize_in(24, 90);
+    let mut cells: Vec<MCell> = vec![];
+    let mut last_level: Option<usize> = None;
+    let mut leaves: Vec<usize> = vec![];
+    for ci in 0..n {
+        let is_leaf = ci == 0 || src.prob(1, 3);
+        let mut insts = vec![];
+        if !is_leaf {
+            if let Some(l) = last_level {
+                insts.push(MInst { name: "below".into(), target: l, loc: (src.signed(100), src.signed(100)), rh: src.bool(), rv: src.bool() });
+            }
+            for k in 0..src.usize_in(0, 2) {
+                if !leaves.is_empty() {
+                    insts.push(MInst { name: format!("leaf{}", k), target: leaves[src.index(leaves.len())], loc: (src.signed(100), src.signed(100)), rh: false, rv: src.bool() });
+                }
+            }
+        }
+        cells.push(MCell { name: format!("tc{}", ci), has_layout: true, has_abs: false, ox: vec![src.i64_in(1, 50)], oy: vec![src.i64_in(1, 50)], metals: src.usize_in(0, 3), insts, assigns: vec![], cuts: vec![], abs_own: None });
+        if is_leaf {
+            leaves.push(ci);
+        } else {
+            last_level = Some(ci);
+        }
+    }
+    let mut listing: Vec<usize> = (0..n).collect();
+    let how = src.below(3);
+    match how {
+        0 => {}
+        1 => listing.reverse(),
+        _ => src.shuffle(&mut listing),
+    }
+    ctx.label(&format!("library of {} cells listed {}", if n < 48 { "24-47" } else { "48-90" }, ["bottom-up", "top-down", "shuffled"][how as usize]));
+    let m = MLib { name: "big".into(), cells, listing };
+    ctx.nontrivial(hash_of(&m));
+    check_roundtrip(&m, ctx)
+}
+fn check_roundtrip(m: &MLib, ctx: &mut Ctx) -> Result<(), String> {
+    let m = m.clone();
     let lib = build(&m);
     let plib = ProtoExporter::export(&lib).map_err(|e| format!("export failed: {:?}", e))?;
     // cells after the cells they instantiate
@@ -406,11 +449,13 @@ fn run(run: &mut Run) {
     // the same, each case in a thread of its own (per-thread state of the code starts from scratch)
     run.explore_fresh("roundtrip", run.tier.pick(3_000, 40_000), 500, &roundtrip_case);
     run.explore("negative", run.tier.pick(200_000, 2_000_000), 520, &negative_case);
+    run.explore("roundtrip-large", run.tier.pick(6_000, 60_000), 900, &large_case);
 }
 fn case(sub: &str) -> Option<Box<CaseFn<'static>>> {
     match sub {
         "roundtrip" => Some(Box::new(roundtrip_case)),
         "negative" => Some(Box::new(negative_case)),
+        "roundtrip-large" => Some(Box::new(large_case)),
         _ => None,
     }
 }
